@@ -33,25 +33,51 @@ AT_YIELD_DELTAS = [0.0, 0.0, 4 * EPS, -4 * EPS, 64 * EPS, -64 * EPS,
 
 # ------------------------------------------------------------------ constants
 
-def random_constants(rng, hard, rate, boundary=None):
-    """Admissible constants over decades.  boundary in {None,'perfect','voce_ysat_eq_y0','voce_saturated'}."""
-    Y0 = float(loguniform(rng, 1e-2, 1e3))
-    c = {"E": float(Y0 * loguniform(rng, 20.0, 5e3)), "nu": float(rng.choice([0.0, 0.25, 0.3, 0.45, 0.49, rng.uniform(0.0, 0.49)])),
-         "Y0": Y0}
+YS_BANDS = [-7, -6, -5, -4, -3, -2]     # decades of the yield strain Y0/(3 mu); the last band is [1e-2, 3e-2]
+
+
+def yield_strain(c):
+    return float(c["Y0"]) / (1.5 * float(c["E"]) / (1.0 + float(c["nu"])))
+
+
+def ys_band(c):
+    return int(min(-2, max(-9, math.floor(math.log10(yield_strain(c))))))
+
+
+def random_constants(rng, hard, rate, boundary=None, band=None):
+    """Admissible constants over decades.  boundary in {None,'perfect','voce_ysat_eq_y0','voce_saturated'}.
+
+    band=None: E/Y0 in [20, 5e3], Y0 in [1e-2, 1e3] (ordinary metals).  band=b in YS_BANDS: the yield strain Y0/(3 mu) is
+    log-uniform in decade b (1e-7 ... 3e-2) independently of everything else, and the stiffness scale E is log-uniform
+    in [1e-3, 1e9]; the hardening reference strain is then either absolute or a multiple of the yield strain."""
+    nu = float(rng.choice([0.0, 0.25, 0.3, 0.45, 0.49, rng.uniform(0.0, 0.49)]))
+    if band is None:
+        Y0 = float(loguniform(rng, 1e-2, 1e3))
+        c = {"E": float(Y0 * loguniform(rng, 20.0, 5e3)), "nu": nu, "Y0": Y0}
+    else:
+        if band == -9:      # below the library's absolute zero-strain guard: |dev Ee| at yield = 1.22 ys < 1e-8
+            ys = float(loguniform(rng, 1e-9, 6e-9))
+        else:
+            ys = 10.0 ** rng.uniform(band, band + 1) if band < -2 else float(loguniform(rng, 1e-2, 3e-2))
+        E = float(loguniform(rng, 1e-3, 1e9))
+        Y0 = float(ys * 1.5 * E / (1.0 + nu))
+        c = {"E": E, "nu": nu, "Y0": Y0}
+    ey = c["Y0"] / c["E"]
+    rel = band is not None and rng.random() < 0.5      # hardening reference strain relative to the yield strain
     if hard == "linear":
         c["H"] = float(c["E"] * loguniform(rng, 1e-4, 0.5))
         if boundary == "perfect":
             c["H"] = 0.0
     elif hard == "voce":
         c["Ysat"] = float(Y0 * (1.0 + loguniform(rng, 0.05, 4.0)))
-        c["eps0"] = float(loguniform(rng, 1e-3, 0.5))
+        c["eps0"] = float(ey * loguniform(rng, 0.3, 100.0)) if rel else float(loguniform(rng, 1e-3, 0.5))
         if boundary == "voce_ysat_eq_y0":
             c["Ysat"] = float(Y0 * (1.0 + float(rng.choice([0.0, 0.0, 2 * EPS, 1e-12, 1e-8]))))
         if boundary == "voce_saturated":
             c["eps0"] = float(loguniform(rng, 1e-5, 1e-3))
     elif hard == "power":
         c["n"] = float(loguniform(rng, 1.5, 20.0))
-        c["eps0"] = float(loguniform(rng, 1e-4, 1e-1))
+        c["eps0"] = float(ey * loguniform(rng, 0.1, 100.0)) if rel else float(loguniform(rng, 1e-4, 1e-1))
     if rate:
         c["S"] = float(Y0 * loguniform(rng, 1e-2, 2.0))
         c["m"] = float(rng.choice([1.0, 2.0, 5.0, 20.0, loguniform(rng, 1.0, 20.0)]))
@@ -99,19 +125,22 @@ def _unit_dev_sym(rng, form):
 
 
 def _detok(H):
-    return onp.linalg.det(H + onp.eye(3)) > 0.2 and onp.linalg.norm(H) < 3.0
+    return onp.linalg.det(H + onp.eye(3)) > 0.2 and onp.linalg.norm(H) < 4.5
 
 
 class History:
-    def __init__(self, rng, kind, form, kin, law, nsteps):
+    def __init__(self, rng, kind, form, kin, law, nsteps, scale="absolute"):
         self.rng, self.kind, self.form, self.kin, self.law, self.n = rng, kind, form, kin, law, int(nsteps)
         self.ey = law.Y0 / law.E                      # yield strain scale
+        # scale == 'yield': every amplitude is a multiple of the yield strain (same elastic/plastic mix at any Y0/E);
+        # 'absolute': upper ends of the amplitude ranges are absolute strains (0.05 ... 0.4)
+        self.ys = scale == "yield"
         r = rng
         self.dt_mode = r.choice(["wide", "wide", "fixed"])
         self.dt0 = 10.0 ** r.uniform(-3, 3)
         if kind in ("monotonic", "reversing"):
             self.D = _unit(r, form)
-            self.amp = float(loguniform(r, 3 * self.ey, 0.4))
+            self.amp = float(loguniform(r, 1.5 * self.ey, min(0.4, 100 * self.ey))) if self.ys else float(loguniform(r, 3 * self.ey, 0.4))
             if kind == "monotonic":
                 w = r.random(self.n) ** 2 + 1e-3
                 self.s = self.amp * onp.cumsum(w) / onp.sum(w)
@@ -129,7 +158,7 @@ class History:
             self.sub = str(r.choice(["uniaxial", "equibiaxial"])) if form == "3d" else "uniaxial"
             nn = onp.outer(nvec, nvec)
             self.D = nn if self.sub == "uniaxial" else (onp.eye(3) - nn)
-            self.amp = float(loguniform(r, 3 * self.ey, 0.3))
+            self.amp = float(loguniform(r, 1.5 * self.ey, min(0.3, 100 * self.ey))) if self.ys else float(loguniform(r, 3 * self.ey, 0.3))
             per = int(r.integers(4, 11))
             k = onp.arange(1, self.n + 1)
             if r.random() < 0.5:
@@ -147,7 +176,7 @@ class History:
             dH = _unit(self.rng, self.form) * float(loguniform(self.rng, lo, hi))
             if _detok(H + dH):
                 return H + dH
-        return H * 0.5
+        return H if _detok(H) else onp.zeros((3, 3))     # no admissible step found: hold (never return an inverted F)
 
     def _land(self, plastic_old, Ee_target):
         """Displacement gradient whose trial elastic strain is Ee_target (up to rounding)."""
@@ -175,7 +204,7 @@ class History:
                 Hn = H
             return Hn, dt, "prop", None
         if kind == "nonproportional":
-            return self._walk(H, 0.05 * self.ey, 0.05), dt, "walk", None
+            return self._walk(H, 0.05 * self.ey, min(0.05, 30 * self.ey) if self.ys else 0.05), dt, "walk", None
         if kind == "tiny_large":
             u = r.random()
             if u < 0.4:
@@ -183,16 +212,16 @@ class History:
             elif u < 0.8:
                 mag, tag = 0.3, "large"
             else:
-                mag, tag = float(loguniform(r, 1e-6, 1e-1)), "mid"
+                mag, tag = (float(self.ey * loguniform(r, 0.05, 30.0)) if self.ys else float(loguniform(r, 1e-6, 1e-1))), "mid"
             for _ in range(20):
                 dH = _unit(r, self.form) * mag
                 if _detok(H + dH):
                     return H + dH, dt, tag, None
-            return H * 0.5, dt, "shrink", None
+            return (H if _detok(H) else onp.zeros((3, 3))), dt, "hold", None
         form = "block" if self.form == "plane_strain" else self.form
         if kind == "at_yield":
             if k % 2 == 1 or (k == 0 and r.random() < 0.3):
-                return self._walk(H, 1.5 * self.ey, max(0.05, 5 * self.ey)), dt, "kick", None
+                return self._walk(H, 1.5 * self.ey, 50 * self.ey if self.ys else max(0.05, 5 * self.ey)), dt, "kick", None
             delta = float(AT_YIELD_DELTAS[int(r.integers(len(AT_YIELD_DELTAS)))])
             Y = float(self.law.flow_static(e_old))
             s = (Y + delta * self.law.Y0) / (2.0 * self.law.mu * ref.SQ32)
@@ -211,5 +240,5 @@ class History:
                 if k == 0 and sub == "zero" and self.kin == "large":
                     Hn = onp.zeros((3, 3))
                 return Hn, dt, "vol_" + sub, None
-            return self._walk(H, 0.5 * self.ey, 0.05), dt, "walk", None
+            return self._walk(H, 0.5 * self.ey, min(0.05, 30 * self.ey) if self.ys else 0.05), dt, "walk", None
         raise ValueError(kind)
